@@ -708,6 +708,21 @@ class Interp:
         base = self.ev(e.value, env)
         return self.getattr(base, e.attr, e)
 
+    def refresh_properties(self, obj, names, site=None):
+        """Mirror what `obj.<name>` reads into obj.attrs for names the class defines as properties (a rule that inspects the
+        object after the path ended sees what a caller of the attribute would see, wherever the value is stored)."""
+        if not isinstance(obj, Obj) or not obj.cls:
+            return
+        for a in names:
+            fn = self.find_method(obj.cls[0], obj.cls[1], a)
+            if fn is not None and is_property(fn[2]):
+                held = obj.attrs.pop(a, None)
+                try:
+                    obj.attrs[a] = self.call_func(Func(fn[0], fn[1], fn[2], self_val=obj), [], {}, site)
+                except _Raise:
+                    if held is not None:
+                        obj.attrs[a] = held
+
     def getattr(self, base, a: str, site=None) -> Val:
         if isinstance(base, Obj):
             if a in base.attrs:
@@ -1216,6 +1231,9 @@ class Interp:
             return Const(None)
         if b == "map" and len(args) == 2 and isinstance(args[1], (Lst, Tup)) and not getattr(args[1], "open", False):
             return Lst([self.call(args[0], [x], {}, site, env) for x in args[1].items])
+        if b == "getattr" and len(args) == 2 and not kwargs and isinstance(args[1], Const) and isinstance(args[1].v, str) \
+                and isinstance(a0, (Obj, NodeV)):
+            return self.getattr(a0, args[1].v, site)  # getattr(x, "name") is x.name
         if b in ("int", "min", "max", "bool", "float", "repr", "map", "zip", "range", "getattr", "type", "id", "hash"):
             if b == "bool" and a0 is not None:
                 return Const(self.truth(a0))
@@ -1634,10 +1652,11 @@ class Interp:
                 return Lst(self.closed_find_all(n, classes, not (isinstance(kwargs.get("bfs"), Const) and kwargs["bfs"].v is False)))
             return Seq(NodeV(classes[0] if len(classes) == 1 else None, name=f"{n.name}.find_all({'|'.join(classes)})"), "gen")
         if name == "transform":
-            self.effect("transform", n, a0, kwargs, site)
+            extra = list(args[1:])  # Expression.transform(fun, *args, copy=True, **kwargs) calls fun(node, *args, **kwargs)
+            self.effect("transform", n, a0, {**kwargs, **{f"#{j + 1}": v for j, v in enumerate(extra)}}, site)
             r = None
             if isinstance(a0, (Func, Lam, Part)):
-                r = self.call(a0, [n], {k: v for k, v in kwargs.items() if k != "copy"}, site, env)
+                r = self.call(a0, [n, *extra], {k: v for k, v in kwargs.items() if k != "copy"}, site, env)
             if isinstance(r, NodeV):
                 return r
             return NodeV(None, name=f"{n.name}.transform@{self.siteid(site)}")
